@@ -38,7 +38,8 @@ func runRenameStreams(out *vOut, dir string) {
 }
 
 type renOcc struct {
-	name  string // "" = taken from the output (written by the first pass)
+	obj   types.Object // what the identifier denotes (an embedded field stands for its type)
+	name  string       // "" = taken from the output (written by the first pass)
 	key   string // object key, "" = none
 	flags string
 	id    *ast.Ident
@@ -110,6 +111,7 @@ func renameFile(out *vOut, fset *token.FileSet, imp types.Importer, fn string) {
 		start, end := decl.Pos(), decl.End()
 		var occs []renOcc
 		symbolic := map[*ast.Ident]string{}
+		embeddedOf := map[types.Object]types.Object{}
 		astutil.Apply(decl, func(c *astutil.Cursor) bool {
 			switch n := c.Node().(type) {
 			case *ast.TypeSwitchStmt:
@@ -139,6 +141,17 @@ func renameFile(out *vOut, fset *token.FileSet, imp types.Importer, fn string) {
 					occs = append(occs, renOcc{name: n.Name, flags: "n", id: n})
 					return true
 				}
+				if v, ok := obj.(*types.Var); ok && v.Embedded() {
+					// an embedded field is named after its type: declaration and uses follow the type
+					if info.Defs[n] == obj {
+						if tn := info.Uses[n]; tn != nil {
+							embeddedOf[obj] = tn
+						}
+					}
+					if tn, ok := embeddedOf[obj]; ok {
+						obj = tn
+					}
+				}
 				if p := obj.Pkg(); p != nil && obj.Parent() == p.Scope() && p.Path() != tpkg.Path() {
 					// dot-imported: the first pass writes pkg.Name
 					occs = append(occs, renOcc{id: n, qual: 1}, renOcc{id: n, qual: 2})
@@ -148,7 +161,7 @@ func renameFile(out *vOut, fset *token.FileSet, imp types.Importer, fn string) {
 				if par := obj.Parent(); par != nil && par != pkgScope && start <= obj.Pos() && obj.Pos() < end {
 					fl = "r"
 				}
-				occs = append(occs, renOcc{name: n.Name, key: objKey(obj), flags: fl, id: n})
+				occs = append(occs, renOcc{name: n.Name, key: objKey(obj), flags: fl, id: n, obj: obj})
 				return true
 			}
 			return true
@@ -343,6 +356,7 @@ func bindVerdict(info *types.Info, tpkg *types.Package, info2 *types.Info, tpkg2
 	}
 	fwd := map[string]string{}
 	bwd := map[string]string{}
+	emb2 := map[types.Object]types.Object{}
 	local := func(obj types.Object, p *types.Package) bool {
 		par := obj.Parent()
 		return par != nil && par != p.Scope() && par != types.Universe
@@ -370,9 +384,16 @@ func bindVerdict(info *types.Info, tpkg *types.Package, info2 *types.Info, tpkg2
 		case 2:
 			continue
 		}
-		var oobj types.Object
-		if o.id != nil {
-			oobj = info.ObjectOf(o.id)
+		oobj := o.obj
+		if v, ok := n.(*types.Var); ok && v.Embedded() {
+			if info2.Defs[id2] == n {
+				if tn := info2.Uses[id2]; tn != nil {
+					emb2[n] = tn
+				}
+			}
+			if tn, ok := emb2[n]; ok {
+				n = tn
+			}
 		}
 		if o.key != "" && oobj == nil {
 			// symbolic variable of a type switch: no object on either side
